@@ -193,6 +193,7 @@ class _Canon(ast.NodeTransformer):
                     k = inside.setdefault(x.id, [0, 0])
                     k[0 if isinstance(x.ctx, ast.Load) else 1] += 1
             private = bool(stack) and all(stack[-1].get(t, [0, 0]) == inside.get(t) for t in tnames)     # the loop variable is used nowhere else
+            private = private or (bool(stack) and all(self._name_private(t) for t in tnames))       # ... or only where something binds it again
             if isinstance(pure, ast.Name) and private and (g.ifs or not (isinstance(c.args[0].elt, ast.Name) and c.args[0].elt.id in tnames)):
                 app = ast.Expr(value=ast.Call(func=ast.Attribute(value=recv, attr="append", ctx=ast.Load()), args=[c.args[0].elt], keywords=[]))
                 inner: ast.stmt = ast.copy_location(app, n)
@@ -201,8 +202,34 @@ class _Canon(ast.NodeTransformer):
                 loop = ast.copy_location(ast.For(target=g.target, iter=g.iter, body=[inner], orelse=[]), n)
                 ast.fix_missing_locations(loop)
                 return self.visit(loop)
+        # `xs.extend(v for row in rows for v in row)`  ->  `for row in rows: xs.extend(row)`
+        if isinstance(c, ast.Call) and isinstance(c.func, ast.Attribute) and c.func.attr == "extend" and len(c.args) == 1 and not c.keywords \
+                and isinstance(c.args[0], (ast.GeneratorExp, ast.ListComp)) and len(c.args[0].generators) == 2:
+            g1, g2 = c.args[0].generators
+            if not g1.ifs and not g2.ifs and not g1.is_async and not g2.is_async and isinstance(g1.target, ast.Name) and isinstance(g2.target, ast.Name) \
+                    and isinstance(g2.iter, ast.Name) and g2.iter.id == g1.target.id and isinstance(c.args[0].elt, ast.Name) and c.args[0].elt.id == g2.target.id \
+                    and self._name_private(g1.target.id):
+                inner = ast.copy_location(ast.Expr(value=ast.Call(func=ast.Attribute(value=c.func.value, attr="extend", ctx=ast.Load()),
+                                                                   args=[ast.Name(id=g1.target.id, ctx=ast.Load())], keywords=[])), n)
+                loop = ast.copy_location(ast.For(target=g1.target, iter=g1.iter, body=[inner], orelse=[]), n)
+                ast.fix_missing_locations(loop)
+                return self.visit(loop)
         self.generic_visit(n)
         return n
+
+    def _name_private(self, v: str) -> bool:
+        """every read of `v` in the enclosing function happens inside a loop / comprehension that binds it itself"""
+        fns = self.__dict__.get("_fn_nodes") or []
+        if not fns:
+            return False
+        covered = set()
+        for x in ast.walk(fns[-1]):
+            if isinstance(x, ast.For) and any(isinstance(t, ast.Name) and t.id == v for t in ast.walk(x.target)):
+                covered |= {id(y) for b in x.body for y in ast.walk(b)}
+            elif isinstance(x, (ast.ListComp, ast.SetComp, ast.GeneratorExp, ast.DictComp)) \
+                    and any(isinstance(t, ast.Name) and t.id == v for g in x.generators for t in ast.walk(g.target)):
+                covered |= {id(y) for y in ast.walk(x)}
+        return all(id(x) in covered for x in ast.walk(fns[-1]) if isinstance(x, ast.Name) and x.id == v and isinstance(x.ctx, ast.Load))
 
     def visit_Return(self, n: ast.Return):
         # `return a if c else b`  ->  `if c: return a` / `else: return b`
